@@ -306,8 +306,8 @@ def mk_ser(sj):
 FN_COQ = {"asdict": "FAsdict", "astuple": "FAstuple", "ng_asdict": "FNgAsdict",
           "ng_astuple": "FNgAstuple", "round": "FRound"}
 
-_runtime = []          # discrepancies of the runtime-only observations
-_runtime_n = [0]
+_runtime_n = [0]       # runtime-only observations made / violated
+_runtime_bad = [0]
 
 
 def _mutable_containers(o, acc, seen):
@@ -363,24 +363,23 @@ def real_call(inst, cfg):
         return "other:" + type(e).__name__, None
 
 
-def _observe_runtime(inp, inst, cfg, status, r, before):
-    """Aliasing facts no model can express."""
-    from .vlib import Discrepancy
+def _observe_runtime(inst, cfg, status, r, before):
+    """Aliasing facts no model can express.  Returns [(kind, text)] of the violated ones."""
+    bad = []
     fn = cfg["fn"]
     _runtime_n[0] += 1
     after = enc(inst)
     if after != before:
-        _runtime.append(Discrepancy({"kind": "argument-mutated", "fn": fn},
-                                    "%s changed its argument" % fn,
-                                    {"input": inp, "detail": "argument differs after the call"}))
-    if status != "ok" or fn == "round":
-        if status == "ok" and fn == "round" and FLAT_PUBLIC[CLASSES.index(type(inst))]:
-            flat = all(_is_leaf(getattr(inst, n)) for n in FIELDS[CLASSES.index(type(inst))])
-            if flat and not (r == inst and type(r) is type(inst) and r is not inst):
-                _runtime.append(Discrepancy({"kind": "roundtrip-unequal"}, "C(**asdict(x)) != x",
-                                            {"input": inp, "detail": "flat public class round trip"}))
-        return
-    names = FIELDS[CLASSES.index(type(inst))]
+        bad.append(("argument-mutated", "%s changed its argument" % fn))
+    if status != "ok":
+        return bad
+    ci = CLASSES.index(type(inst))
+    names = FIELDS[ci]
+    if fn == "round":
+        if FLAT_PUBLIC[ci] and all(_is_leaf(getattr(inst, n)) for n in names):
+            if not (r == inst and type(r) is type(inst) and r is not inst):
+                bad.append(("roundtrip-unequal", "C(**asdict(x)) != x for a flat class with public names"))
+        return bad
     rec = cfg.get("recurse", True)
     if cfg.get("filter") is None and cfg.get("ser") is None:
         vals = list(r.values()) if fn in ("asdict", "ng_asdict") else list(r)
@@ -388,24 +387,19 @@ def _observe_runtime(inp, inst, cfg, status, r, before):
             for n, out in zip(names, vals):
                 v = getattr(inst, n)
                 if not rec and out is not v:
-                    _runtime.append(Discrepancy({"kind": "recurse-false-not-identical", "fn": fn},
-                                                "recurse=False returned a different object for field " + n,
-                                                {"input": inp, "detail": n}))
+                    bad.append(("recurse-false-not-identical",
+                                "recurse=False returned a different object for field " + n))
                 if rec and isinstance(v, (list, set, dict)) and out is v:
-                    _runtime.append(Discrepancy({"kind": "container-not-new", "fn": fn},
-                                                "field-level container returned as is for field " + n,
-                                                {"input": inp, "detail": n}))
+                    bad.append(("container-not-new", "field-level container returned as is for field " + n))
     if rec and fn in ("asdict", "ng_asdict"):
         a, c = {}, {}
         _mutable_containers(inst, a, set())
         _mutable_containers(r, c, set())
-        shared = set(a) & set(c)
-        if shared:
-            _runtime.append(Discrepancy({"kind": "container-not-new", "fn": fn},
-                                        "asdict result shares a mutable container with its argument",
-                                        {"input": inp, "detail": [show(a[i]) for i in list(shared)[:3]]}))
+        if set(a) & set(c):
+            bad.append(("container-not-new", "asdict result shares a mutable container with its argument"))
     if r is inst:
-        _runtime.append(Discrepancy({"kind": "container-not-new", "fn": fn}, "result is the argument", {"input": inp}))
+        bad.append(("container-not-new", "the result is the argument itself"))
+    return bad
 
 
 def _nontrivial(j):
@@ -418,7 +412,7 @@ def mk_case(inp):
     cfg = inp["cfg"]
     before = enc(inst)
     status, r = real_call(inst, cfg)
-    _observe_runtime(inp, inst, cfg, status, r, before)
+    bad = _observe_runtime(inst, cfg, status, r, before)
     if status == "ok":
         seen_t = "(Some %s)" % enc(r)
         seen_j = {"result": show(r)}
@@ -428,12 +422,20 @@ def mk_case(inp):
     else:
         seen_t = "(Some VAlien)"
         seen_j = {"raised": status[6:]}
+    if bad:
+        # a violated runtime-only observation is reported through the same channel: the case is
+        # made to differ from every model answer (VAlien equals nothing) and says why
+        seen_t = "(Some VAlien)"
+        seen_j["runtime_violation"] = [t for _, t in bad]
+        _runtime_bad[0] += 1
     _, ft = mk_filter(cfg.get("filter"))
     _, st = mk_ser(cfg.get("ser"))
     term = "(K CL NT %s %s %s %s %s %s %s %s %s)" % (
         FN_COQ[cfg["fn"]], b(cfg.get("recurse", True)), b(cfg.get("retain", False)), ft,
         DK_COQ[cfg.get("df", "d")], TF_COQ[cfg.get("tf", "t")], st, before, seen_t)
     sig = {"fn": cfg["fn"], "outcome": status if status in ("ok", "TypeError") else "other"}
+    if bad:
+        sig["kind"] = bad[0][0]
     return Case(term, inp, seen_j, sig=sig, nontrivial=_nontrivial(inp["val"]),
                 key=json.dumps([inp["val"], cfg], sort_keys=True))
 
@@ -591,13 +593,13 @@ def all_cfgs():
 
 def generate(tier, seed):
     rng = random.Random(seed)
-    del _runtime[:]
     _runtime_n[0] = 0
+    _runtime_bad[0] = 0
     cases = []
     for v in FIXED:
         for cfg in all_cfgs():
             cases.append(mk_case({"val": v, "cfg": cfg}))
-    n_main, n_mal, n_round = (900, 250, 150) if tier == "quick" else (9000, 2500, 1000)
+    n_main, n_mal, n_round = (2500, 600, 300) if tier == "quick" else (25000, 6000, 2000)
     maxd = 4 if tier == "quick" else 5
     for _ in range(n_main):
         v = gen_inst(rng, rng.randint(2, maxd))
@@ -616,7 +618,8 @@ def generate(tier, seed):
 
 
 def extra(tier, seed):
-    return list(_runtime[:20]), {"runtime_observations": _runtime_n[0],
+    # violated runtime observations are reported through their case (see mk_case)
+    return [], {"runtime_observations": _runtime_n[0], "runtime_observations_violated": _runtime_bad[0],
                                  "runtime_observation_kinds": ["argument deep-equal before/after the call",
                                                                "converted mutable containers are new objects",
                                                                "recurse=False returns the identical field objects",
@@ -654,12 +657,45 @@ def distribution(cases):
             return 1 + max([max(depth(k), depth(v)) for k, v in j[2]] or [0])
         return 0
 
+    def feats(j, acc, in_key=False, in_set=False):
+        t = j[0]
+        if t == "I":
+            if in_key or in_set:
+                acc.add("instance_in_key_or_set")
+            for x in j[2]:
+                feats(x, acc, in_key, in_set)
+        elif t == "T":
+            if j[1] == 1:
+                acc.add("single_field_namedtuple")
+            if isinstance(j[1], int):
+                acc.add("namedtuple")
+            if in_key == "seq":
+                acc.add("collection_nested_in_key_collection")
+            for x in j[2]:
+                feats(x, acc, "seq" if in_key else False, in_set)
+        elif t in "LSF":
+            if in_key == "seq":
+                acc.add("collection_nested_in_key_collection")
+            acc.add({"L": "list", "S": "set", "F": "frozenset"}[t])
+            for x in j[1]:
+                feats(x, acc, "seq" if in_key else False, in_set or t in "SF")
+        elif t == "D":
+            acc.add("dict:" + j[1])
+            for k, v in j[2]:
+                feats(k, acc, True, in_set)
+                feats(v, acc, False, in_set)
+
+    fc = Counter()
+    for c in cases:
+        acc = set()
+        feats(c.inp["val"], acc)
+        fc.update(acc)
     fns = Counter(c.inp["cfg"]["fn"] for c in cases)
     outs = Counter(c.sig["outcome"] for c in cases)
     dep = Counter(depth(c.inp["val"]) for c in cases)
     flt = Counter((c.inp["cfg"].get("filter") or ["none"])[0] for c in cases)
     ser = Counter(str(c.inp["cfg"].get("ser")) for c in cases if c.inp["cfg"]["fn"] in ("asdict", "ng_asdict"))
     return {"functions": dict(fns), "outcomes": dict(outs), "value_depth": dict(sorted(dep.items())),
-            "filters": dict(flt), "serializers": dict(ser),
+            "filters": dict(flt), "serializers": dict(ser), "value_features": dict(sorted(fc.items())),
             "malformed_stream": sum(1 for c in cases if c.inp.get("stream") == "malformed"),
             "recurse_false": sum(1 for c in cases if c.inp["cfg"].get("recurse") is False)}
